@@ -202,6 +202,61 @@ Proof.
   rewrite map_length in H. specialize (H ltac:(destruct q; [congruence|discriminate])). lia.
 Qed.
 
+(* ---- the rank decision is invariant under a common positive rescaling of the squared singular values and of the squared threshold:
+   rank_chop works relative to the largest singular value (s / smax, eps / smax), which changes nothing in exact arithmetic ---- *)
+Lemma oleb_scale (c a b : T) : oltb oz c = true -> oleb (omul c a) (omul c b) = oleb a b.
+Proof.
+  intros Hc. destruct (oleb a b) eqn:E.
+  - apply omul_mono; [|exact E]. unfold oltb in Hc. apply negb_true_iff in Hc.
+    destruct (ole_total oz c) as [H|H]; [exact H|]. unfold ole in H. congruence.
+  - assert (Hlt : oltb b a = true) by (unfold oltb; rewrite E; reflexivity).
+    pose proof (omul_lt_mono c b a Hc Hlt) as H. unfold oltb in H. apply negb_true_iff in H. exact H.
+Qed.
+Lemma oltb_scale (c a b : T) : oltb oz c = true -> oltb (omul c a) (omul c b) = oltb a b.
+Proof. intros Hc. unfold oltb. rewrite oleb_scale by assumption. reflexivity. Qed.
+Lemma tails_scale (c : T) (q : list T) : tails (map (omul c) q) = map (omul c) (tails q).
+Proof.
+  induction q as [|x t IH]; [reflexivity|].
+  change (tails (map (omul c) (x :: t))) with (sumT (map (omul c) (x :: t)) :: tails (map (omul c) t)).
+  rewrite sumT_scale, IH. reflexivity.
+Qed.
+Lemma find_first_map (f : T -> T) (p : T -> bool) (l : list T) : find_first p (map f l) = find_first (fun v => p (f v)) l.
+Proof. induction l as [|x t IH]; [reflexivity|]. cbn [map find_first]. rewrite IH. reflexivity. Qed.
+Lemma find_first_ext (p p' : T -> bool) (l : list T) : (forall v, p v = p' v) -> find_first p l = find_first p' l.
+Proof. intros H. induction l as [|x t IH]; [reflexivity|]. cbn [find_first]. rewrite H, IH. reflexivity. Qed.
+Lemma last_map_scale (c : T) (l : list T) : last (map (omul c) l) oz = omul c (last l oz).
+Proof.
+  induction l as [|x t IH]; [cbn; rewrite omul_0_r; reflexivity|].
+  destruct t as [|y t']; [reflexivity|]. exact IH.
+Qed.
+Theorem rank_chop_scale (c : T) (q : list T) (pos : bool) (thr2 : T) : oltb oz c = true ->
+  rank_chop (map (omul c) q) pos (omul c thr2) = rank_chop q pos thr2.
+Proof.
+  intros Hc. unfold rank_chop.
+  pose proof (oleb_scale c (sumT q) oz Hc) as E0. rewrite omul_0_r in E0.
+  rewrite sumT_scale, E0.
+  rewrite map_length, tails_scale, find_first_map, last_map_scale, oleb_scale by assumption.
+  rewrite (find_first_ext (fun v => oltb (omul c v) (omul c thr2)) (fun v => oltb v thr2)) by (intros v; apply oltb_scale; assumption).
+  reflexivity.
+Qed.
+(* max|s| == 0  <=>  the energy is zero, for squares (q_i >= 0) *)
+Lemma all_zero_sum (q : list T) : nn q -> forallb (fun v => oleb v oz) q = oleb (sumT q) oz.
+Proof.
+  induction q as [|x t IH]; intros Hq; [cbn; symmetry; apply ole_refl|].
+  inversion Hq as [|? ? Hx Ht]; subst. cbn [forallb sumT]. rewrite (IH Ht).
+  assert (Hs : ole oz (sumT t)) by (apply sumT_nn; assumption).
+  assert (H0r : forall a, oadd a oz = a) by (intros a; rewrite oadd_comm; apply oadd_0_l).
+  destruct (oleb x oz) eqn:Ex; cbn [andb].
+  - destruct (oleb (sumT t) oz) eqn:Et.
+    + symmetry. pose proof (oadd_mono _ _ x Et) as H1. rewrite H0r in H1. eapply ole_trans; [exact H1|exact Ex].
+    + symmetry. apply not_true_is_false. intros H.
+      pose proof (ole_add_r (sumT t) x Hx) as H3.
+      pose proof (ole_trans _ _ _ H3 H) as H5. unfold ole in H5. congruence.
+  - symmetry. apply not_true_is_false. intros H.
+    pose proof (ole_add_r x (sumT t) Hs) as H3. rewrite oadd_comm in H3.
+    pose proof (ole_trans _ _ _ H3 H) as H5. unfold ole in H5. congruence.
+Qed.
+
 End RankChopP.
 
 (* the pinned comparison (sc[-1] > eps**2) violated the bound at a tie: s = [1,1,1,1], eps = 1 *)
